@@ -630,7 +630,14 @@ def nonlinear_correspondence(ctx, rng):
         Xs = rng.integers(-3, 4, size=nt)
         stub = NLStub(N, edofs, tags, dx)
         x = (JaxDiscreteField(value=jnp.asarray(Xs.astype(float)[:, None] * np.ones((nt, nq)))),)
-        mat, vec = NonlinearForm(form)._assemble(stub, x=x)
+        try:
+            mat, vec = NonlinearForm(form)._assemble(stub, x=x)
+        except Exception as e:  # noqa: BLE001 - an exception of the code under test on a valid input is a failing input
+            ctx.fail('nonlinear-stub-exception', f'NonlinearForm._assemble raises {type(e).__name__} on a stub basis with integer data '
+                     f'(linearisation point given as a JaxDiscreteField built before the assembly): {e}',
+                     {'Nbfun': Nb, 'nelems': nt, 'edofs': edofs.tolist(), 'tags': tags.tolist(), 'dx': dx.tolist(), 'x': Xs.tolist(),
+                      'x_dtype': str(x[0].value.dtype)})
+            return
         if mat[2] != (N, N) or mat[3] != (Nb, Nb) or vec[2] != (N,) or vec[3] != (Nb,):
             ctx.fail('nonlinear-shapes', 'NonlinearForm._assemble returns wrong shape descriptors',
                      {'N': N, 'Nbfun': Nb, 'got': [mat[2], mat[3], vec[2], vec[3]]})
@@ -719,12 +726,17 @@ def run(ctx):
     compile_parallel(ctx, [g for g in gens if g == 'gen/C20Agree.v'] + dyn)
     ctx.prove()
     # 3. correspondence of the generated terms with the real helpers
-    if gen_ok:
-        helper_correspondence(ctx, [('np', c20_tr.NP_SCEN), ('jx', c20_tr.JX_SCEN)], meta, rng)
-        for v, scen in (('np', c20_tr.NP_SCEN), ('jx', c20_tr.JX_SCEN)):
-            raising_scenarios(ctx, v, scen, raises[v], rng)
-    if nl_ok:
-        nonlinear_correspondence(ctx, rng)
+    corr_error = None
+    try:
+      if gen_ok:
+          helper_correspondence(ctx, [('np', c20_tr.NP_SCEN), ('jx', c20_tr.JX_SCEN)], meta, rng)
+          for v, scen in (('np', c20_tr.NP_SCEN), ('jx', c20_tr.JX_SCEN)):
+              raising_scenarios(ctx, v, scen, raises[v], rng)
+      if nl_ok:
+          nonlinear_correspondence(ctx, rng)
+    except Exception:  # noqa: BLE001 - reported after the child processes have been collected
+        import traceback
+        corr_error = traceback.format_exc()
     # 4. oracles: started before the Coq work (own random stream), collected here
     fresh_process_collect(ctx, fresh)
     try:
@@ -750,6 +762,8 @@ def run(ctx):
     for smp in res['samples']:
         ctx.sample(smp)
     ctx.extra['oracle_child_seconds'] = round(res['seconds'], 1)
+    if corr_error:
+        ctx.broke('harness', 'correspondence stage', corr_error)
 
 
 def replay(ctx, data):
